@@ -145,9 +145,13 @@ CONST_PATH = r"(?:(?:[a-z_][a-z0-9_]*|Self|crate|super)\s*::\s*)*"
 
 def const_defs(src):
     """{name: value text} of the const / static items of a (comment-stripped, test-free) source text"""
-    res = {}
+    res, clash = {}, set()
     for m in CONST_DEF.finditer(src):
-        res.setdefault(m.group(1), re.sub(r"\\\n\s*", "", m.group(3).strip()))
+        v = re.sub(r"\\\n\s*", "", m.group(3).strip())
+        if res.setdefault(m.group(1), v) != v:
+            clash.add(m.group(1))                 # two items of one name with different values (two impls / modules): not inlined
+    for k in clash:
+        res[k] = "<ambiguous>"
     return res
 
 
